@@ -15,6 +15,8 @@ import (
 	"sync"
 	"sync/atomic"
 	"time"
+	"unicode"
+	"unicode/utf8"
 
 	"github.com/FollowTheProcess/spok/ast"
 	"github.com/FollowTheProcess/spok/lexer"
@@ -63,7 +65,8 @@ type synParse struct {
 
 type synRec struct {
 	I       int      `json:"i"`
-	In      []int    `json:"in"` // the input bytes
+	In      []int    `json:"in"`  // the input bytes
+	WSX     []int    `json:"wsx"` // 1-based positions of bytes that belong to a NON-ASCII white-space rune (unicode.IsSpace: U+0085, U+00A0, U+2028, ...)
 	Toks    []synTok `json:"toks"`
 	LexEnd  string   `json:"lexend"` // EOF | ERROR | cap
 	LexErr  synErr   `json:"lexerr"`
@@ -84,6 +87,22 @@ var lineRe = regexp.MustCompile(`(?i)line\s+(\d+)`)
 var ctxRe = regexp.MustCompile(`(?m)^[ \t]*(\d+)[ \t]*\|[ \t]?(.*)$`)
 
 func hx(s string) string { return hex.EncodeToString([]byte(s)) }
+
+// wsxOf lists the (1-based) positions of the bytes of non-ASCII white space: a purely lexical fact about the input that TLC,
+// working on bytes, cannot derive itself.
+func wsxOf(s string) []int {
+	out := []int{}
+	for i := 0; i < len(s); {
+		r, w := utf8.DecodeRuneInString(s[i:])
+		if r >= 0x80 && !(r == utf8.RuneError && w == 1) && unicode.IsSpace(r) {
+			for k := 0; k < w; k++ {
+				out = append(out, i+k+1)
+			}
+		}
+		i += w
+	}
+	return out
+}
 
 func bytesOf(s string) []int {
 	out := make([]int, len(s))
@@ -173,7 +192,7 @@ func doParse(input string) (synParse, ast.Tree) {
 func synOne(in synIn, mode string) synRec {
 	raw, _ := hex.DecodeString(in.Hex)
 	input := string(raw)
-	rec := synRec{I: in.I, In: bytesOf(input), Toks: []synTok{}, Outcome: "ok",
+	rec := synRec{I: in.I, In: bytesOf(input), WSX: wsxOf(input), Toks: []synTok{}, Outcome: "ok",
 		LexErr: synErr{Lines: []int{}, Quotes: []bool{}},
 		P1:     synParse{Tree: []synNode{}, Err: synErr{Lines: []int{}, Quotes: []bool{}}},
 		P2:     synParse{Tree: []synNode{}, Err: synErr{Lines: []int{}, Quotes: []bool{}}}}
@@ -380,7 +399,7 @@ func syntaxRunChunk(lines, results [][]byte, lo, hi int, mode string) error {
 		if hang {
 			oc = "hang"
 		}
-		rec := synRec{I: in.I, In: bytesOf(string(raw)), Toks: []synTok{}, Outcome: oc, Detail: tail(stderr.String(), 800),
+		rec := synRec{I: in.I, In: bytesOf(string(raw)), WSX: []int{}, Toks: []synTok{}, Outcome: oc, Detail: tail(stderr.String(), 800),
 			LexErr: synErr{Lines: []int{}, Quotes: []bool{}},
 			P1:     synParse{Tree: []synNode{}, Err: synErr{Lines: []int{}, Quotes: []bool{}}},
 			P2:     synParse{Tree: []synNode{}, Err: synErr{Lines: []int{}, Quotes: []bool{}}}}
@@ -407,7 +426,7 @@ func syntaxChild(mode string) error {
 				defer func() {
 					if p := recover(); p != nil {
 						raw, _ := hex.DecodeString(s.Hex)
-						done <- synRec{I: s.I, In: bytesOf(string(raw)), Toks: []synTok{}, Outcome: "panic", Detail: fmt.Sprint(p),
+						done <- synRec{I: s.I, In: bytesOf(string(raw)), WSX: []int{}, Toks: []synTok{}, Outcome: "panic", Detail: fmt.Sprint(p),
 							LexErr: synErr{Lines: []int{}, Quotes: []bool{}},
 							P1:     synParse{Tree: []synNode{}, Err: synErr{Lines: []int{}, Quotes: []bool{}}},
 							P2:     synParse{Tree: []synNode{}, Err: synErr{Lines: []int{}, Quotes: []bool{}}}}
